@@ -489,13 +489,13 @@ fn replay_c08(ctx: &mut Ctx, v: &Value) {
 // ---------------------------------------------------------------------------------------------
 // C10
 
-fn decode_owned(bytes: &[u8], opts: Option<u8>) -> Option<Result<Message<Vec<u8>>, ()>> {
+fn decode_owned(bytes: &[u8], opts: Option<u8>) -> Option<Result<Message<crate::monitor::Lease>, ()>> {
     let mon = RefCell::new(Mon::new(false));
     let r = guarded(|| {
         let mut r = R3::new(bytes, &mon);
         match opts {
-            None => Message::<Vec<u8>>::try_read(&mut r),
-            Some(o) => Message::<Vec<u8>>::try_read_validate(&mut r, bridge::options(o)),
+            None => Message::<crate::monitor::Lease>::try_read(&mut r),
+            Some(o) => Message::<crate::monitor::Lease>::try_read_validate(&mut r, bridge::options(o)),
         }
     });
     if !mon.borrow().violations.is_empty() {
